@@ -256,6 +256,7 @@ func init() {
 
 	helperStubs := map[string]string{
 		pkgHelper + ".FromBuiltinStatefulSet": "vFromBuiltinModel",
+		pkgHelper + ".ToBuiltinStatefulSet":   "vToBuiltinModel",
 	}
 	register(&spec{
 		ID: "C17", Title: "Upgrade from built-in StatefulSet never loses pods and survives interruption",
@@ -357,5 +358,21 @@ func init() {
 			"a rollout in progress is halted by the partition (pods at or above it are already at the update revision)",
 		},
 		OutsideClaim: []string{"byte-identity of the patch with the upstream encoder for every pod template", "histories longer than two revisions"},
+	})
+
+	register(&spec{
+		ID: "C20", Title: "Hijacked watch relays everything, survives error events, shuts down cleanly",
+		Runs: []runSpec{
+			{Name: "watch", Pkg: pkgHelper, Func: "VH_Watch", Quick: []int{2, 1, 5}, Thorough: []int{3, 2, 5},
+				Bounds: func(a []int) string {
+					return fmt.Sprintf("source sends 0..%d events, each of one of %d types (Added, Modified, Deleted, Bookmark, Error with a Status payload), then closes; the consumer reads any number of them, calls Stop %d time(s) and stops reading; every interleaving of the three goroutines at synchronisation operations with at most 2 (quick) / 3 (thorough) preemptive context switches (switches at blocking operations are unbounded; <= 400 scheduling points)", a[0], a[2], a[1])
+				},
+				Asserts: []string{"events arrive in order with their type", "every event the consumer waits for is delivered", "no goroutine is left behind after the consumer stopped or the source ended", "the result channel is closed after the consumer stopped or the source ended"},
+				Covers:  []string{"watch shut down"}},
+		},
+		Stubs:        helperStubs,
+		Preempt:      [2]int{2, 3},
+		Assumptions:  []string{"ToBuiltinStatefulSet (a JSON round trip) is replaced by a field-copying model during symbolic execution", "context switches happen only at synchronisation operations (exact for race-free code)", "utilruntime.ReallyCrash is switched off in the harness so that a panic of the relay goroutine is observable as a lost event instead of killing the test binary; natively the interleaving is the Go scheduler's, goroutine leaks are observed through runtime.NumGoroutine after a pause"},
+		OutsideClaim: []string{"longer event sequences, more than the bounded number of scheduling points"},
 	})
 }
